@@ -203,6 +203,27 @@ fn explore_value<T: Fl>(g: &Graph<T>, cfg: &Cfg, a: usize, v: [T; 3], c: &mut Co
     let mkcase = |sub: &str, path: &[usize], obs: Value, exp: Value| -> Value {
         json!({"sub": sub, "group": g.name, "float": T::NAME, "path": path.iter().map(|&i| name(i)).collect::<Vec<_>>(), "input": hex(&v), "value": v64, "observed": obs, "expected": exp})
     };
+    // WithAlpha: attaching, replacing and dropping alpha never touches the colour
+    if cfg.alpha {
+        if let Some(f) = g.wa[a] {
+            let (al, bl) = (T::from64(0.3), T::from64(0.8));
+            cnt[1] += 1;
+            cnt[2] += 1;
+            match pv::catch(|| f(v, al, bl)) {
+                Ok(r) => {
+                    let want_alpha = [al, al, T::from64(1.0), T::from64(0.0), bl, bl];
+                    let names = ["with_alpha.split", "with_alpha.without_alpha", "opaque.split", "transparent.split", "with_alpha.with_alpha.split", "plain"];
+                    for i in 0..5 {
+                        let same = (0..3).all(|k| r[i][k].bits64() == r[5][k].bits64()) && r[i][3].bits64() == want_alpha[i].bits64();
+                        if !same {
+                            c.violation(&sigbase("with-alpha", a, a, names[i]), 1.0, || mkcase("with-alpha", &[a], json!({"op": names[i], "result": [r[i][0].to64(), r[i][1].to64(), r[i][2].to64(), r[i][3].to64()]}), json!({"color": [r[5][0].to64(), r[5][1].to64(), r[5][2].to64()], "alpha": want_alpha[i].to64()})));
+                        }
+                    }
+                }
+                Err(msg) => c.violation(&sigbase("with-alpha", a, a, "panic"), 1.0, || mkcase("with-alpha", &[a], json!({"panic": msg}), json!("no panic"))),
+            }
+        }
+    }
     for b in 0..n {
         let Some(db) = &direct[b] else { continue };
         let kb = g.nodes[b].kind;
